@@ -1,5 +1,6 @@
 import Ccp.Model.Typed
 import Ccp.Model.Range
+import Ccp.Model.Intf
 /-!
 Model of the typed IOS models of `models_cisco.py` (syntax `ios`, `factory=True`):
 
@@ -25,8 +26,7 @@ The family order is C05's (`Ccp.Typed.order`): the line itself, then `all_childr
 Assumptions (generator-enforced): no line-break character inside a line (`.` and `$` of `re`
 treat `\n` specially); digits are ASCII (`\d` also accepts other Unicode digits);
 `IPv4Obj("A/M")` is re-implemented for canonical dotted quads and contiguous netmasks only;
-`CiscoIOSInterface` (C15's subject) is replaced by a small scanner for `ordinal_list`
-covering names `prefix n[/n[/n]][.sub][:chan]` / `[:chan][.sub]`.
+`CiscoIOSInterface` is C15's model `Ccp.Intf.parse` (imported, validated and proved there).
 -/
 namespace Ccp.Ios
 open Ccp.Py Ccp.Tree
@@ -582,50 +582,19 @@ def subinterfaceNumber (s : Str) : Option Str :=
 def isPortchannelIntf (s : Str) : Bool :=
   Tree.isInfixOf kChannel ((intfName s).map Char.toLower)
 
-/-- digits after the first occurrence of `sep` followed by a digit (`re.search(r"\.(\d+)")`) -/
-def afterSep (sep : Char) : Str → Option Str
-  | [] => none
-  | c :: r =>
-    if c = sep && !(r.takeWhile isDigit).isEmpty then some (r.takeWhile isDigit) else afterSep sep r
+def optI (o : Option Nat) : Int :=
+  match o with | some n => Int.ofNat n | none => -1
 
-/-- leading `n[/n[/n]]` of the number text -/
-def slashNums (r : Str) : List Str :=
-  let a := r.takeWhile isDigit
-  match r.dropWhile isDigit with
-  | '/' :: r1 =>
-    let b := r1.takeWhile isDigit
-    if b.isEmpty then [a] else
-    match r1.dropWhile isDigit with
-    | '/' :: r2 =>
-      let c := r2.takeWhile isDigit
-      if c.isEmpty then [a, b] else [a, b, c]
-    | _ => [a, b]
-  | _ => [a]
-
-def optInt (o : Option Str) : Int :=
-  match o with | some d => digitsInt d | none => -1
-
-/-- `ordinal_list` = (slot, card, port, subinterface, channel, interface_class→-1), through the
-small scanner that stands for `CiscoIOSInterface("".join(text.split()[1:]))`; `none` = raises -/
+/-- `ordinal_list` = (slot, card, port, subinterface, channel, interface_class→-1) of
+`CiscoIOSInterface("".join(text.split()[1:]))` — C15's model `Ccp.Intf.parse`; `none` = raises -/
 def ordinalList (s : Str) : Option (List Int) :=
   match isIntf s with
   | none => none
   | some false => some []
   | some true =>
-    let nm : Str := (wordsOf s).tail.flatMap id
-    let r := nm.dropWhile isAlphaHyphen
-    match r with
-    | c :: _ =>
-      if isDigit c then
-        let sub := optInt (afterSep '.' r)
-        let ch := optInt (afterSep ':' r)
-        match slashNums r with
-        | [a] => some [-1, -1, digitsInt a, sub, ch, -1]
-        | [a, b] => some [digitsInt a, -1, digitsInt b, sub, ch, -1]
-        | [a, b, c] => some [digitsInt a, digitsInt b, digitsInt c, sub, ch, -1]
-        | _ => none
-      else none
-    | [] => none
+    match Intf.parse ((wordsOf s).tail.flatMap id) with
+    | .ok i => some [optI i.slot, optI i.card, Int.ofNat i.port, optI i.sub, optI i.chan, -1]
+    | .error _ => none
 
 /-! ## `IOSRouteLine`: `_RE_IP_ROUTE` as an ordered optional-slot consumer -/
 
